@@ -376,7 +376,8 @@ func (e *Exec) zz(name string, args []Value) Value {
 	case "I32":
 		return IntV{T: e.input(e.labelArg(args[0]), 32), Signed: true}
 	case "Bool":
-		return BoolV{T: e.input(e.labelArg(args[0]), 0)}
+		// a two-way catalogue pick: fork right away so that everything downstream is concrete
+		return BoolV{T: e.P.Bool(e.decide(e.input(e.labelArg(args[0]), 0)))}
 	case "Choice":
 		n := e.concInt(args[1])
 		t := e.input(e.labelArg(args[0]), 64)
@@ -591,6 +592,46 @@ func (e *Exec) syncIntrinsic(fn *ssa.Function, name string, args []Value) (Value
 	case name == "(*sync.Mutex).Unlock" || name == "(*sync.RWMutex).Unlock":
 		e.lockOf(args[0].(PtrV)).locked = false
 		e.schedPoint("unlock")
+		return nil, true
+	case name == "(*sync.WaitGroup).Add" || name == "(*sync.WaitGroup).Done":
+		l := e.lockOf(args[0].(PtrV))
+		if name == "(*sync.WaitGroup).Done" {
+			l.readers--
+		} else {
+			l.readers += e.concInt(args[1])
+		}
+		if l.readers < 0 {
+			panic(goPanic{msg: "sync: negative WaitGroup counter"})
+		}
+		e.schedPoint("wg")
+		return nil, true
+	case name == "(*sync.WaitGroup).Wait":
+		l := e.lockOf(args[0].(PtrV))
+		e.schedPoint("wg.wait")
+		e.block("waitgroup", func() bool { return l.readers == 0 })
+		return nil, true
+	case name == "(*sync.WaitGroup).Go":
+		l := e.lockOf(args[0].(PtrV))
+		l.readers++
+		fnv := args[1]
+		e.spawn(NativeFn(func([]Value) Value {
+			e.call(fnv, nil, "wg.Go")
+			l.readers--
+			return nil
+		}), nil)
+		return nil, true
+	case name == "(*sync.Once).Do":
+		l := e.lockOf(args[0].(PtrV))
+		e.schedPoint("once")
+		if !l.locked {
+			l.locked = true
+			e.call(args[1], nil, "once.Do")
+		}
+		return nil, true
+	case name == "runtime.GOMAXPROCS" || name == "runtime.NumCPU":
+		return IntV{T: e.P.BV(64, 1), Signed: true}, true
+	case name == "runtime.Gosched":
+		e.schedPoint("gosched")
 		return nil, true
 	case name == "(*sync.Mutex).TryLock":
 		e.schedPoint("trylock")
